@@ -48,6 +48,16 @@ NOTES = {
  "C20-w8m1": "missed at first: strconv parses 'NaN', and NaN compared false against every tolerance; no portfolio ever had a negative net value. The oracles are now NaN-safe and returns-noflows draws leveraged books; then caught (wrong-return: NaN%).",
  "C20-w8m2": "missed at first: columns whose balance total is zero were skipped, and only the valuation commodity was ever drained. The weights sub-check now liquidates whole portfolios at some rate and demands that a date without any holding shows no weight; then caught (weight-without-holdings).",
  "C03-w8m2": "missed by C03 at first (caught by C19's registry linearizability check): C03 never passed --remap. 15% of C03's cases now do; then caught by C03 too (expected-row-missing).",
+ "C02-w9m1": "missed at first: at most one --account and one --commodity filter were drawn. Up to three of a kind are drawn now, some with an inline (?i) flag, in either position; then caught (unexpected-row).",
+ "C18-w9m1": "at first no verdict (exit 2): the instrumenter did not know conc/iter.MapErr. IterMapErr and IterForEachIdx were added to the run-time; then caught (unparseable-file-modified).",
+ "C18-w9m2": "NOT CAUGHT by a verdict: the change writes through golang.org/x/sys/unix (O_TMPFILE, linkat, raw write), which bypasses the simulated file system. The instrumenter now refuses such code (exit 2, no verdict) instead of letting it act on the real file system, where the first evaluation had produced a misleading diagnosis. Engine X's real-fsize corroboration did see the torn file, but it only runs when engine S can be built. Recorded as a limit of the approach (DESIGN section 3).",
+ "C04-w9m2": "at first no verdict (exit 2): sync.Map was not modelled. simrt.SyncMap (a plain map whose operations are scheduling points, Range in seeded order) replaces it; then still missed, because no layout included a file twice. C04 now moves prices/assertions into a file that two files include (diamond) in 15% of its cases; then caught.",
+ "C05-w9m2": "missed at first: every generated file had a unique name. 30% of the layouts now reuse a few file names (prices.knut, transactions.knut, accounts.knut, main.knut) across directories; then caught by C05 (verdict-depends-on-layout) and C19.",
+ "C14-w9m2": "at first no verdict (exit 2): os.Stdin was not modelled. Standard input of a simulated run is now an empty stream; the include-graph sub-check got the variant missing-odd (journal named by a relative path, missing include named '-', '--', '~', ...); then caught (error-swallowed).",
+ "C16-w9m2": "missed at first: no negative price was ever quoted. A fifth of C16's cases (and a seventh of C03's) now draw 15% (10%) negative quotes; then caught (transaction does not sum to zero).",
+ "C09-w9m1": "missed at first: printed journals were far below 32 KiB. One in 40 round-trip cases now has 300-700 transactions with multi-byte characters in accounts and descriptions; then caught (printed-journal-rejected).",
+ "C09-w9m2": "C09 stays silent (its runs use one schedule per case); caught by C06's price-conflict sub-check, which compares runs of one input.",
+ "C05-w9m1": "C05 stays silent at the quick budget; caught by C19's race engine (data race in directives.Date.Parse).",
 }
 DROPPED = [
  "C04 (wave 7, first change): Builder.Build skips the day sort while days 'arrive in ascending order'; the same idea as C05-m2 (caught by C04, C05, C19).",
